@@ -458,6 +458,9 @@ def extremes(r):
     """Structured extremes of the valid-file space (kind "valid"): field maxima, boundary crossings,
     constant and alternating images, copies at column 0 across page boundaries, maximal/split runs."""
     out = []
+    # HRS pictures larger than one standard screen (160 x 192 bytes): the size comes from the options, not from a constant
+    for w, h in ((320, 200), (320, 193), (640, 100), (640, 192), (320, 400), (322, 192)):
+        out.append(build_hrs(r, w=w, h=h))
     # every format that packs pixels into bytes: an uncompressed picture whose data runs through all 256 byte
     # values (a decoder that treats one value specially - 0x00 as "empty", 0xFF as a marker - shows here)
     global rand_pixels
@@ -670,6 +673,43 @@ def structured_damage(case, r):
         b = bytearray(data)
         b[2 + r.randrange(16)] = r.choice([64, 255, 128])
         out.append(rewrap(case, bytes(b), "control"))
+    # the same for the other run-length schemes, without a random draw: the first count / control bytes at every boundary value
+    if fmt == "mge" and case.get("compressed"):
+        for k in range(51, min(len(data) - 1, 51 + 2 * 4), 2):
+            for v in (0, 1, 2, 127, 128, 255):
+                if data[k] != v:
+                    b = bytearray(data)
+                    b[k] = v
+                    out.append(rewrap(case, bytes(b), "control"))
+        for i, v in ((16 + 1, 1), (16 + 2, 1), (16 + 1, 255), (16 + 2, 255), (0, 1)):      # the two header flags, the lead byte
+            b = bytearray(data)
+            b[i] = v if data[i] != v else 0
+            out.append(rewrap(case, bytes(b), "control"))
+    if fmt == "rat":
+        esc = data[0]
+        for i in [j for j in range(19, len(data) - 2) if data[j] == esc][:4]:
+            for v in (0, 1, 2, 127, 128, 255, esc):
+                if data[i + 1] != v:
+                    b = bytearray(data)
+                    b[i + 1] = v
+                    out.append(rewrap(case, bytes(b), "control"))
+        for i, v in ((1, 0), (1, 1), (1, 255), (0, (esc + 1) % 256)):                       # packed flag, escape byte
+            if data[i] != v:
+                b = bytearray(data)
+                b[i] = v
+                out.append(rewrap(case, bytes(b), "control"))
+    if fmt == "cm3":
+        off = 1 + 16 + 12 + (0 if data[0] & 1 else 243)
+        for v in (0, 1, 2, 19, 20, 21, 127, 128, 129, 159, 160, 255):                        # the first line's control byte
+            if off + 1 < len(data) and data[off + 1] != v:
+                b = bytearray(data)
+                b[off + 1] = v
+                out.append(rewrap(case, bytes(b), "control"))
+        for v in (0, 1, 0x80, 0x81, 2, 0xFF):                                               # the type byte (pages / pattern block)
+            if data[0] != v:
+                b = bytearray(data)
+                b[0] = v
+                out.append(rewrap(case, bytes(b), "control"))
     return out
 
 
